@@ -40,8 +40,17 @@ func init() {
 		"initial state: any L1 subset of L2 with equal bytes/flags and L1 deadline <= L2 deadline (representation invariant, re-established by every command = induction over histories)",
 		"responder = recording responder (calls, not bytes); intermediate GetEnd(noopEnd=false) calls of the locking wrapper are not compared here (wire level: C08)",
 	}, stdAssumptions...)
+	replies := func(name string, params map[string]int64, only []string, bounds string) Job {
+		return Job{Pkg: "./zz_verif/orcah", Func: "ZZReplies", Name: name, Params: params, Only: only, Reach: []string{"loop-returned", "replies-checked"}, Bounds: bounds}
+	}
 	reg(Check{ID: "C01", Level: "model_checking", Assumptions: orcaAssumptions,
-		Quick: []Job{orcaStep([]string{"c01-"}, nil, stepBounds)}})
+		Quick: []Job{orcaStep([]string{"c01-"}, nil, stepBounds),
+			{Pkg: "./zz_verif/orcah", Func: "ZZFault", Name: "glue-std-handlers", Params: map[string]int64{"nofault": 1}, Only: []string{"c01-"}, Reach: []string{"loop-returned", "read-back"},
+				Bounds: "whole stack, fault-free: one binary request as bytes -> real parser -> Loop -> L1Only/L1L2/L1L2Batch -> real std handlers -> binary backend protocol -> in-process memcached models; reply frames and the value read back by a second client are those of the reference map"}},
+		Thorough: []Job{
+			replies("wire-binary-pipeline2", map[string]int64{"pipeline": 2}, []string{"c08-", "c02-"}, "wire level (see C08): pipeline of 2 binary requests through parser, Loop, 9 orchestrator configurations and the binary responder"),
+			replies("wire-text-pipeline2", map[string]int64{"pipeline": 2, "text": 1}, []string{"c08-", "c02-"}, "the same over the text protocol"),
+		}})
 	reg(Check{ID: "C02", Level: "model_checking", Assumptions: orcaAssumptions,
 		Quick: []Job{orcaStep([]string{"c02-"}, nil, stepBounds)}})
 	c09chunk := func(name string, ls int64) Job {
@@ -51,9 +60,6 @@ func init() {
 	reg(Check{ID: "C09", Level: "model_checking", Assumptions: append(append([]string{}, orcaAssumptions...), "chunked handler jobs: in-process memcached model (A6), pre-state one complete value per key, clock frozen during the command"),
 		Quick: []Job{orcaStep([]string{"c09-"}, nil, stepBounds), c09chunk("chunked-small", 0), c09chunk("chunked-border", 1)}})
 
-	replies := func(name string, params map[string]int64, only []string, bounds string) Job {
-		return Job{Pkg: "./zz_verif/orcah", Func: "ZZReplies", Name: name, Params: params, Only: only, Reach: []string{"loop-returned", "replies-checked"}, Bounds: bounds}
-	}
 	c08only := []string{"c08-"}
 	rb8 := "pipeline of 2 requests as bytes through the real parser, DefaultServer.Loop, orca (9 configurations), real responder; first request: every supported kind (binary: 23 incl. quiet variants, quiet-get batches closed by get/no-op, gete, gat, version, quit; text: 15 incl. 1-3 key gets, unknown command, bad numeric field), second: 2-key get / set / delete; arbitrary valid two-tier start state over 2 keys; values, flags, TTLs, opaques symbolic"
 	reg(Check{ID: "C08", Level: "model_checking", Assumptions: append([]string{
@@ -92,6 +98,16 @@ func init() {
 			{Pkg: "./zz_verif/orcah", Func: "ZZLockWiring", Reach: []string{"wired"}, Bounds: "Locked / LockedWithExisting with concurrency 0..2, single/multi reader: the orcas of both ports hold the same locker objects; stripe index a function of the key bytes (keys of 1..3 symbolic bytes)"},
 		},
 		Thorough: c3t})
+
+	fb := "one binary client request (set add replace append prepend delete touch gat get quiet-get+noop) as bytes through the real parser, DefaultServer.Loop, orca, real std handlers and the binary backend protocol onto in-process memcached models for L1 and L2; one backend request (index 0..2 on L1 or on L2) answered with one of 10 error statuses, or the backend connection closed before / after / inside (byte 1..30) that reply; then a second client on fresh connections reads the key back; arbitrary valid two-tier start state, 1 key, values 2 bytes; "
+	reg(Check{ID: "C10", Level: "model_checking", Assumptions: append([]string{
+		"A6: backends are the in-process memcached model; a read with no reply pending is recorded (it would block for ever on a socket) instead of blocking",
+		"faults: exactly one per run; a status that is a normal answer for the faulted backend command (not-found to replace/delete/touch/get, not-stored or not-found to append/prepend, exists to add) is a backend lying about its contents, not an error status: the no-stale-value-after-ack assertion is not applied to it",
+		"value oracle: what the second client reads is the pre-command value, the post-command value or a miss; after an acknowledged write/delete only the post-command value or a miss",
+		"promptness = the loop returns within the step budget with no read that would wait for ever; wall-clock behaviour is outside the claim; faults in the batching pool belong to C13",
+	}, orcaAssumptions...),
+		Quick: []Job{{Pkg: "./zz_verif/orcah", Func: "ZZFault", Only: []string{"c10-"}, Reach: []string{"loop-returned", "fault-delivered", "read-back"}, Bounds: fb + "orchestrators L1Only, L1L2, L1L2Batch"}},
+		Thorough: []Job{{Pkg: "./zz_verif/orcah", Func: "ZZFault", Name: "ZZFault-locked-2keys", Params: map[string]int64{"norca": 9, "faultpositions": 4}, Only: []string{"c10-"}, Reach: []string{"loop-returned", "fault-delivered", "read-back"}, Bounds: fb + "all 9 orchestrator configurations incl. the locking wrappers, fault index 0..3"}}})
 
 	reg(Check{ID: "C12", Level: "model_checking", Assumptions: append([]string{
 		"lock discipline observed through instrumented lockers injected into the lock-set slot by an overlay file in package orcas (no change to the repository)",
